@@ -77,3 +77,65 @@ ENSURES(merged_hole_has_matching_tags_no_left_neighbour, self->last_used_slot < 
 ENSURES(merged_hole_has_matching_tags_left_neighbour, (OLD_LEFT_TAG & MSBINT) == 0 || self->last_used_slot < h - (size_t)(OLD_LEFT_TAG & ~MSBINT) ||
         (HOLE_OK(self, h - (size_t)(OLD_LEFT_TAG & ~MSBINT)) && TAGSIZE(self, h - (size_t)(OLD_LEFT_TAG & ~MSBINT)) >= numSlots + (size_t)(OLD_LEFT_TAG & ~MSBINT)))
 ;
+
+/* ---- serving a request (loop-free) ---------------------------------------------------------------------------------- */
+node_address g_last_node;              /* what removeLastHeapNode answers */
+unsigned g_downheaps, g_lastremoved, g_allocs; node_address g_alloc_result;
+node_address heap_manager__removeLastHeapNode(struct heap_manager *self)
+__CPROVER_requires(self != NULL)
+__CPROVER_requires(self->heap_root >= 1 && self->heap_root + 3 <= self->last_used_slot)
+__CPROVER_assigns(g_lastremoved, self->num_heap_nodes, self->data[self->heap_root + 2], self->data[self->heap_root + 3])
+__CPROVER_assigns(ghost_o <= self->last_used_slot: self->data[ghost_o])
+/* ASSUMED heap shape: the last node of a heap with more than one node is a tracked hole other than the root; removing it clears the link of its parent
+ * (which may be the root) and leaves the other links alone */
+__CPROVER_ensures(g_lastremoved == __CPROVER_old(g_lastremoved) + 1 && __CPROVER_return_value == g_last_node)
+__CPROVER_ensures((self->data[self->heap_root + 2] == __CPROVER_old(self->data[self->heap_root + 2]) && (size_t)self->data[self->heap_root + 2] != g_last_node) || (self->data[self->heap_root + 2] == 0 && (size_t)__CPROVER_old(self->data[self->heap_root + 2]) == g_last_node))
+__CPROVER_ensures((self->data[self->heap_root + 3] == __CPROVER_old(self->data[self->heap_root + 3]) && (size_t)self->data[self->heap_root + 3] != g_last_node) || (self->data[self->heap_root + 3] == 0 && (size_t)__CPROVER_old(self->data[self->heap_root + 3]) == g_last_node));
+void heap_manager__downHeap(struct heap_manager *self, node_address n)
+__CPROVER_requires(self != NULL)
+REQUIRES(a_hole_with_matching_tags_is_sifted_down, HOLE_OK(self, n) && TAGSIZE(self, n) >= 5)
+__CPROVER_assigns(g_downheaps, self->heap_root)
+__CPROVER_assigns(ghost_o <= self->last_used_slot: self->data[ghost_o])
+__CPROVER_assigns(self->data[n + 1], self->data[n + 2], self->data[n + 3])
+__CPROVER_ensures(g_downheaps == __CPROVER_old(g_downheaps) + 1)
+/* ASSUMED: sifting keeps the root a tracked hole */
+__CPROVER_ensures(self->heap_root != 0 && HOLE_OK(self, self->heap_root) && TAGSIZE(self, self->heap_root) >= 5);
+node_address heap_manager__allocateFromArray(struct heap_manager *self, size_t n)
+__CPROVER_requires(self != NULL) __CPROVER_assigns(g_allocs) __CPROVER_ensures(g_allocs == __CPROVER_old(g_allocs) + 1 && __CPROVER_return_value == g_alloc_result);
+
+#define ROOT(m) ((m)->heap_root)
+#define DISJOINT(m, x, y) ((x) + TAGSIZE(m, x) <= (y) || (y) + TAGSIZE(m, y) <= (x))
+/* which hole serves the request: the current hole if it is large enough, else the heap root if that is */
+#define CUR_FITS(m, n)  (CUR(m) != 0 && TAGSIZE(m, CUR(m)) >= (n))
+#define ROOT_FITS(m, n) (ROOT(m) != 0 && TAGSIZE(m, ROOT(m)) >= (n))
+node_address heap_manager__requestChunk(struct heap_manager *self, size_t *numSlots)
+HM_REQ(self)
+__CPROVER_requires(__CPROVER_is_fresh(numSlots, sizeof(size_t)) && 1 <= *numSlots && *numSlots < (1ul << 28) && self->last_used_slot < (1ul << 30))
+REQUIRES(current_hole_is_a_hole_inside_the_used_arena, CUR_OK(self))
+/* ASSUMED heap shape: the root is 0 or a tracked hole; it is not the current hole; its children and the last node are other tracked holes */
+__CPROVER_requires(ROOT(self) == 0 || (HOLE_OK(self, ROOT(self)) && TAGSIZE(self, ROOT(self)) >= 5 && self->num_heap_nodes >= 1))
+__CPROVER_requires(ROOT(self) == 0 || CUR(self) == 0 || DISJOINT(self, ROOT(self), CUR(self)))
+__CPROVER_requires(CUR(self) == 0 || TAGSIZE(self, CUR(self)) >= 5)
+#define KID_OK(m, k) ((k) == 0 || ((k) > 0 && HOLE_OK(m, (size_t)(k)) && TAGSIZE(m, (size_t)(k)) >= 5 && DISJOINT(m, (size_t)(k), ROOT(m)) && (CUR(m) == 0 || DISJOINT(m, (size_t)(k), CUR(m)))))
+__CPROVER_requires(ROOT(self) == 0 || (KID_OK(self, self->data[ROOT(self) + 2]) && KID_OK(self, self->data[ROOT(self) + 3])))
+__CPROVER_requires(g_last_node >= 1 && HOLE_OK(self, g_last_node) && TAGSIZE(self, g_last_node) >= 5 && (ROOT(self) == 0 || DISJOINT(self, g_last_node, ROOT(self))))
+__CPROVER_requires(ROOT(self) == 0 || ((self->data[ROOT(self) + 2] <= 0 || (size_t)self->data[ROOT(self) + 2] == g_last_node || DISJOINT(self, (size_t)self->data[ROOT(self) + 2], g_last_node)) && (self->data[ROOT(self) + 3] <= 0 || (size_t)self->data[ROOT(self) + 3] == g_last_node || DISJOINT(self, (size_t)self->data[ROOT(self) + 3], g_last_node))))
+/* the live slot and the foreign pointer slot lie outside the two holes that may serve the request */
+__CPROVER_requires(ghost_g <= self->last_used_slot && (CUR(self) == 0 || ghost_g < CUR(self) || ghost_g >= CUR(self) + TAGSIZE(self, CUR(self))) && (ROOT(self) == 0 || ghost_g < ROOT(self) || ghost_g >= ROOT(self) + TAGSIZE(self, ROOT(self))))
+__CPROVER_requires(ghost_g != ghost_o && (ghost_g < g_last_node || ghost_g >= g_last_node + TAGSIZE(self, g_last_node)))
+__CPROVER_requires(ROOT(self) == 0 || ((self->data[ROOT(self) + 2] == 0 || ghost_g < (size_t)self->data[ROOT(self) + 2] || ghost_g > (size_t)self->data[ROOT(self) + 2] + 3) && (self->data[ROOT(self) + 3] == 0 || ghost_g < (size_t)self->data[ROOT(self) + 3] || ghost_g > (size_t)self->data[ROOT(self) + 3] + 3)))
+__CPROVER_requires((CUR(self) == 0 || ghost_o + 1 < CUR(self) || ghost_o > CUR(self) + TAGSIZE(self, CUR(self))) && (ROOT(self) == 0 || ghost_o + 1 < ROOT(self) || ghost_o > ROOT(self) + TAGSIZE(self, ROOT(self))))
+__CPROVER_requires(ghost_o + 1 < g_last_node || ghost_o > g_last_node + TAGSIZE(self, g_last_node))
+__CPROVER_requires(g_downheaps < 1000000 && g_lastremoved < 1000000 && g_allocs < 1000000 && self->num_heap_nodes >= 0 && self->num_heap_nodes < (1l << 40))
+__CPROVER_assigns(*numSlots, g_downheaps, g_lastremoved, g_allocs, self->heap_root, self->current_hole, self->num_heap_nodes, self->max_heap_nodes, self->num_small_holes, self->max_small_holes,
+                  self->num_small_slots, self->max_small_slots, self->num_heap_slots, self->max_heap_slots)
+__CPROVER_assigns(__CPROVER_object_whole(self->data))
+#define OLD_CUR   (__CPROVER_old(self->current_hole))
+#define OLD_ROOT  (__CPROVER_old(self->heap_root))
+ENSURES(live_slots_are_never_altered, self->data[ghost_g] == __CPROVER_old(self->data[ghost_g]))
+ENSURES(failure_is_reported_as_zero_slots, __CPROVER_return_value != 0 || *numSlots == 0)
+ENSURES(a_chunk_comes_from_the_current_hole_the_heap_root_or_fresh_space, __CPROVER_return_value == 0 || g_allocs == __CPROVER_old(g_allocs) + 1 || __CPROVER_return_value == OLD_CUR || __CPROVER_return_value == OLD_ROOT)
+ENSURES(fresh_space_only_when_neither_hole_fits, g_allocs == __CPROVER_old(g_allocs) || (__CPROVER_return_value == g_alloc_result))
+ENSURES(current_hole_stays_a_hole_inside_the_used_arena, CUR_OK(self))
+ENSURES(the_leftover_becomes_the_current_hole, g_allocs != __CPROVER_old(g_allocs) || __CPROVER_return_value == 0 || CUR(self) == 0 || CUR(self) == __CPROVER_return_value + *numSlots)
+;
